@@ -8,6 +8,7 @@ const shimmed = false
 func ctlReset(p *planSpec)  {}
 func ctlLog() any           { return nil }
 func ctlCount() int         { return 0 }
+func ctlCloseLeaked()       {}
 func ctlIsCrash(v any) bool { return false }
 func ctlRunScheduled(fns []func(), schedule []int) ([]int, error) {
 	for _, f := range fns {
